@@ -171,6 +171,8 @@ func run(e *ev.Env) {
 	en.keys()
 	// en.splitScalar() is not run: the statement covers comma-free values only under splitting (see extra.go)
 	en.totality()
+	en.mustFail()
+	en.afterFail() // last: see followup.go
 
 	e.Stat("trips_total", en.g.r[0].trips+en.g.r[1].trips)
 }
